@@ -139,7 +139,7 @@ pub fn staking_msg(rng: &mut Rng, sc: &Sc, o: &Obs) -> (Value, Vec<(String, u128
                 };
                 m.insert(
                     "protocol_chain_config".into(),
-                    json!({"account_address_prefix": pp, "ibc_token_denom": if rng.chance(1, 8) { format!("ibc/{}", "\u{00e9}".repeat(32)) } else { sc.s.clone() }, "ibc_channel_id": ch,
+                    json!({"account_address_prefix": pp, "ibc_token_denom": if rng.chance(1, 5) { weird_denom(rng) } else { sc.s.clone() }, "ibc_channel_id": ch,
                         "minimum_liquid_stake_amount": big128(rng).to_string(), "oracle_address": if rng.chance(1, 2) { Value::Null } else { json!(addr32(&low, "oracle-x")) }}),
                 );
             }
@@ -290,7 +290,7 @@ pub fn next(rng: &mut Rng, sc: &Sc, o: &Obs) -> Vec<Op> {
             cfg.unbonding = *rng.pick(&[0u64, u64::MAX, 1_209_600]);
             cfg.fee_rate = *rng.pick(&[0u128, 100_000, u128::MAX]);
             cfg.min_stake = *rng.pick(&[0u128, 1, u128::MAX]);
-            let m = Sc::instantiate_msg(&cfg, &sc.staker, &sc.collector, &sc.validators, &sc.monitors, sc.treasury.as_deref(), sc.oracle.as_deref(), &sc.s);
+            let m = Sc::instantiate_msg(&cfg, &sc.staker, &sc.collector, &sc.validators, &sc.monitors, sc.treasury.as_deref(), sc.oracle.as_deref(), &if rng.chance(1, 4) { weird_denom(rng) } else { sc.s.clone() });
             let txt = if rng.chance(1, 6) { mangle(rng, &m.to_string()) } else { m.to_string() };
             vec![Op::InstantiateProbe { kind: "staking".into(), sender: sc.admin.clone(), msg: txt }]
         }
@@ -326,4 +326,22 @@ pub fn next(rng: &mut Rng, sc: &Sc, o: &Obs) -> Vec<Op> {
             }
         }
     }
+}
+
+
+/// staked-asset denoms around the accepted shape (ibc/ + 64) with a multi-byte character placed at every
+/// byte offset near the marker and total byte lengths 67..69 — string slicing by byte index must not abort
+pub fn weird_denom(rng: &mut Rng) -> String {
+    if rng.chance(1, 6) {
+        return format!("ibc/{}", "\u{00e9}".repeat(32));
+    }
+    let c = *rng.pick(&['\u{00e9}', '\u{20ac}', '\u{1F600}']);
+    let lead = rng.below(9) as usize;
+    let total = 67 + rng.below(3) as usize;
+    let mut d: String = "ibc/AAAAAAAA".chars().take(lead).collect();
+    d.push(c);
+    while d.len() < total {
+        d.push('A');
+    }
+    d
 }
